@@ -167,6 +167,9 @@ func (b *block) readFrom(r io.ReadCloser) error {
 	b.owner = nil
 	n, err := readToEOF(r, b.data[:])
 	if err != nil {
+		// The data of the member the block held before has been
+		// overwritten; do not leave it readable with the old length.
+		b.buf = nil
 		return err
 	}
 	b.buf = bytes.NewReader(b.data[:n])
